@@ -171,7 +171,15 @@ func (s *Solver) define(tb *TB, t *Term) {
 			for _, a := range sig.args {
 				as = append(as, a.String())
 			}
-			s.send(fmt.Sprintf("(declare-fun %s (%s) %s)", u.name, strings.Join(as, " "), sig.res))
+			if sig.body != "" {
+				var ps []string
+				for i, a := range sig.args {
+					ps = append(ps, fmt.Sprintf("(a%d %s)", i, a))
+				}
+				s.send(fmt.Sprintf("(define-fun %s (%s) %s %s)", u.name, strings.Join(ps, " "), sig.res, sig.body))
+			} else {
+				s.send(fmt.Sprintf("(declare-fun %s (%s) %s)", u.name, strings.Join(as, " "), sig.res))
+			}
 		}
 		s.send(fmt.Sprintf("(define-fun t%d () %s %s)", u.id, u.sort, body(u)))
 	}
